@@ -31,8 +31,14 @@ THEOREMS = [
     # byte-to-line lemmas (bufio.Scanner / bufio.Reader.ReadLine on every LF/CRLF/final-newline layout)
     'Scalibr.Parsers.scan_unlines', 'Scalibr.Parsers.Dpkg.rlines_unlines',
     # (b) record loop over the DECODED document = comprehension, unique keys / no duplicates (no layout clause: decoder trusted)
-    'Scalibr.Lockfiles.C03_packagelock', 'Scalibr.Lockfiles.C03_packagelock_exact', 'Scalibr.Lockfiles.C03_pipfile',
-    'Scalibr.Lockfiles.C03_pkgslock', 'Scalibr.Lockfiles.C03_gomod',
+    # `_model_semantics`: what ONE entry denotes (npm aliases / file: / git versions: depEntry, pkgEntry; go.mod replace: step = body of applyReplace) is the
+    # extractor's own per-entry function; the theorem is the refinement "loop = last-write-wins / replace fold over those", not an independent grammar
+    'Scalibr.Lockfiles.C03_packagelock_model_semantics', 'Scalibr.Lockfiles.C03_packagelock_exact_model_semantics', 'Scalibr.Lockfiles.C03_pipfile',
+    'Scalibr.Lockfiles.C03_pkgslock', 'Scalibr.Lockfiles.C03_gomod_model_semantics',
+    # executable right-hand sides (Spec/Lockfiles.lean `expected`), evaluated by Drivers/C03 for every decoded-format case: extract ~ Perm ~ expected
+    'Scalibr.Lockfiles.C03_packagelock_expected_model_semantics', 'Scalibr.Lockfiles.C03_pipfile_expected', 'Scalibr.Lockfiles.C03_pkgslock_expected',
+    'Scalibr.Lockfiles.C03_gomod_expected_model_semantics',
+    'Scalibr.Lockfiles.C03_pkgslock_project_reported',   # decided witness of the known finding C03/pkgslock-project-reference
 ]
 # restatements of model definitions (append / map over the decoded arrays): NOT proof obligations, no property content of their own
 DEFINITIONAL = ['Scalibr.Lockfiles.C03_composer', 'Scalibr.Lockfiles.C03_cargo', 'Scalibr.Lockfiles.C03_poetry']
@@ -51,8 +57,17 @@ def _names(lst):
 
 
 def finding_class(case, fi, fm):
-    """C03 has no known findings: the two defects the stream found (requirements.txt option pattern inside names, packages.lock.json
-    duplicates across target frameworks) were repaired in /repo (fix: 0b3783b7, 455d5282); their witnesses in corpus/C03 are checked strictly."""
+    """The two defects the stream found earlier (requirements.txt option pattern inside names, packages.lock.json duplicates across target frameworks)
+    were repaired in /repo (fix: 0b3783b7, 455d5282); their witnesses in corpus/C03 are checked strictly.
+    One known finding: packages.lock.json project references ("type": "Project", no "resolved") are reported as packages with an empty version.
+    Class predicate: format pkgslock, nothing missing, and every extra entry has an EMPTY version (any other difference stays a violation)."""
+    t = case.split(' ')
+    if t[0] == 'pkgslock' and fi.get('pk') not in (None, 'err', 'panic', 'hang', 'oom') and fm.get('spec') not in (None, '?'):
+        g, w = _names(fi['pk']), _names(fm['spec'])
+        missing = [x for x in set(w) if w.count(x) > g.count(x)]
+        extra = [x for x in set(g) if g.count(x) > w.count(x)]
+        if not missing and extra and all(x[1] == b'' for x in extra):
+            return 'C03/pkgslock-project-reference'
     return None
 
 
@@ -141,6 +156,12 @@ def run(ctx):
                                                               'reqtree (_partial: the same grammar per file + -r include lines; closure over a path -> content map)']
     ctx.extra['formats_with_record_loop_theorem_on_decoded_document'] = ['package-lock.json v1-v3', 'Pipfile.lock', 'packages.lock.json', 'go.mod']
     ctx.extra['formats_whose_loop_is_definitional'] = ['composer.lock', 'Cargo.lock', 'poetry.lock']
+    ctx.extra['layout_clauses_rest_on_decoder'] = {
+        'formats': ['package-lock.json', 'composer.lock', 'Cargo.lock', 'poetry.lock', 'Pipfile.lock', 'packages.lock.json', 'go.mod'],
+        'statement': 'for these seven formats NO theorem covers a layout clause (key order, white space, indentation, CRLF, final newline, comments, unrelated fields): '
+                     'they rest on the decoder (encoding/json, BurntSushi/toml, golang.org/x/mod/modfile), which is trusted and not modelled, and are exercised by the generator/oracle stream only. '
+                     'The theorems start at the decoded document; for package-lock, Pipfile, packages.lock.json and go.mod the oracle list is computed by the Lean Spec (`expected`) from the document '
+                     'the extractor\'s own decoder produced; for composer / Cargo / poetry (append/map loops, definitional) it is the generator\'s expected list'}
     ctx.extra['differential_only'] = 'byte layouts (indentation, key order, CRLF, unrelated fields) of the seven decoded formats; requirements.txt markers, hashes, continuations'
     if not proofs_ok:
         lib.proof_failed(ctx, 'Scalibr.Properties.C03')
